@@ -509,6 +509,7 @@ class Engine:
         for sel in rec.spec["sels"]:
             if sel.get("focus"):
                 focus[(sel["levels"][-1]["fn"], sel["focus"]["var"])] = True
+        single = (not rec.active) or all(len(sel["levels"]) == 1 for sel in rec.spec["sels"])
         for ev in tr.events[lo:hi]:
             a = tr.acts[ev["act"]]
             root = a
@@ -516,6 +517,13 @@ class Engine:
                 root = root.parent
             t0 = self._enter_index(root.id)  # operation index
             if any(t0 < c <= self.opi for c in rec.changes):
+                if single and all(c < self._enter_index(a.id) for c in rec.changes if c <= self.opi):
+                    # ... but a call that *begins* after the probe's last change, made by the
+                    # generator once it runs again, is a call like any other: a probe that is
+                    # active now hears from it (as far as its selector names nothing of what was
+                    # already under way), one that is over does not
+                    self.sim.reach("call_begun_by_resumed_generator_judged")
+                    continue
                 for var, val in msel.event_vars(ev):
                     if (ev["fn"], var) in focus:
                         idx.add(ev["i"])
@@ -962,6 +970,19 @@ class Engine:
                         return True
         return False
 
+    def overlay_reaches(self, rec, fn):
+        if fn in self.tooled_inplace or fn in getattr(self.sim.v["sys"], "tooled", {}):
+            return True
+        for pid in self.order:
+            other = self.probes[pid]
+            if other.obj is None or other.spec.get("kind") == "overlay" or not other.active:
+                continue
+            for sel in other.spec["sels"]:
+                for lv in sel["levels"]:
+                    if lv["fn"] == fn or any(sb["fn"] == fn for sb in msel.walk_sibs(lv)):
+                        return True
+        return False
+
     def overriding_active(self):
         return any(self.probes[p].spec.get("how") for p in self.order)
 
@@ -1207,6 +1228,10 @@ class Engine:
                             self.check_brackets(rec, got, op)
                         continue
                     exp = self.expected_for(rec, ob["lo"], ob["hi"])
+                    if rec.spec.get("kind") == "overlay":
+                        # an overlay instruments nothing itself: it hears from the functions that are
+                        # tooled, or that an active probe happens to have instrumented
+                        exp = [(i, d) for i, d in exp if self.overlay_reaches(rec, self.sim.tr.events[i]["fn"])]
                     if self.sc.get("relax_inflight"):
                         if not uidx:
                             uidx, _ = self.inflight_unspecified(rec, ob["lo"], ob["hi"])
